@@ -118,7 +118,10 @@ def check_c11(tier):
         for e in exprs(b, rng, nex, 3 if tier == "thorough" else 2, allow_v6_complement=1 if g == 0 else 0):
             cases.append({"case": f"c{ncase}", "expr": e, "expr_str": render(e)}); ncase += 1
         # every fourth database answers with many kilobytes (padded objects, repeated members and routes)
-        groups.append({"db": db, "irr": irr_of(db, 9000 if len(groups) % 4 == 1 else 0), "names": NAMES, "cases": cases})
+        irr = irr_of(db, 9000 if len(groups) % 4 == 1 else 0)
+        if len(groups) % 5 == 2:
+            irr["dribble"] = [1, 5, 13, 100][(len(groups) // 5) % 4]   # the answers arrive in pieces of this many bytes
+        groups.append({"db": db, "irr": irr, "names": NAMES, "cases": cases})
     gpath = os.path.join(wd, "groups.ndjson")
     with open(gpath, "w") as f:
         for g in groups:
@@ -204,11 +207,39 @@ def check_c11(tier):
                    time.time() - t0, len(verdict.violations))
     return verdict.exit_code()
 
+IRRD_CFG = """SPECIFICATION Spec
+CONSTANTS
+  Calls <- MCCalls
+  MaxCalls = %d
+  DrainOnDrop = %s
+  Ans <- MCAns
+INVARIANT Aligned
+INVARIANT CleanStart
+INVARIANT HistoryFree
+%s
+CHECK_DEADLOCK FALSE
+"""
+
+def irrd_design(tier):
+    """Irrd.tla: the pipelined query protocol as query.rs / irrc use it, every history of resolver calls; the
+    negative control (a dropped pipeline forgets what is outstanding) must be refuted by TLC."""
+    n = 4 if tier == "thorough" else 3
+    pos = run_tlc("MCIrrd", IRRD_CFG % (n, "TRUE", "PROPERTY Finishes"), "irrd-design", workers=8, timeout=3000)
+    if pos["violated"]:
+        raise ToolError(f"Irrd.tla: {pos['violated']} violated by the model of the code as it is (see {pos['out']})")
+    neg = run_tlc("MCIrrd", IRRD_CFG % (2, "FALSE", ""), "irrd-negative", workers=4, timeout=600)
+    if not neg["violated"]:
+        raise ToolError("Irrd.tla: the negative control (DrainOnDrop = FALSE) was not refuted - the model lost its teeth")
+    return {"module": "Irrd.tla / MCIrrd", "histories_of_resolver_calls_up_to": n, "states": pos["distinct"], "transitions": pos["generated"],
+            "depth": pos["depth"], "invariants": ["Aligned", "CleanStart", "HistoryFree"], "liveness": "Finishes",
+            "negative_control": {"DrainOnDrop": False, "violated": neg["violated"], "states": neg["distinct"]}}
+
 def check_c17(tier):
     t0 = time.time(); prop = "C17"
     verdict = Verdict(prop)
     wd = workdir(f"{prop}-{tier}")
     build_harness(["rpsl"])
+    design = irrd_design(tier)
     b, gr = tlc_blocks()
     rng = random.Random(seed())
     nhist, hlen = (1500, 6) if tier == "thorough" else (150, 5)
@@ -223,7 +254,10 @@ def check_c17(tier):
                 pool = {"asSets": ["S1", "S2"], "ases": ["A1", "A2", "A3"], "rtSets": ["R1", "R2"], "fltSets": ["F1"]}[which]
                 errs[which] = rng.sample(pool, rng.randint(1, len(pool)))
             hist.append({"case": f"h{g}-{len(hist)}", "expr": e, "expr_str": render(e), "errs": errs}); ncase += 1
-        groups.append({"db": db, "irr": irr_of(db, 9000 if g % 5 == 2 else 0), "names": NAMES, "twice": g % 2 == 0, "history": hist})
+        irr = irr_of(db, 9000 if g % 5 == 2 else 0)
+        if g % 7 == 3:
+            irr["dribble"] = [1, 3, 7, 64][(g // 7) % 4]     # the answers arrive in pieces of this many bytes
+        groups.append({"db": db, "irr": irr, "names": NAMES, "twice": g % 2 == 0, "history": hist})
     # long streaks of failing evaluations (each touching filter-, as- and route-sets) before clean ones: state that an
     # evaluator only resets on success, or that builds up per failure, shows only here
     F1 = {"op": "fset", "name": "F1"}; S = lambda n: {"op": "asset", "name": n, "rng": [0, 0]}; R1 = {"op": "rset", "name": "R1", "rng": [0, 0]}
@@ -267,7 +301,13 @@ def check_c17(tier):
     # change what the policies after it evaluate to (junos-agent/src/policies/eval.rs)
     import check_agent
     agent = check_agent.side_run(prop, tier, verdict)
-    cov = {"agent_policy_sequences": agent, "states": stats["lines"] + 1, "transitions": stats["lines"], "traces_validated_against_impl": len(groups), "long_failure_streak_histories": len(groups) - nhist,
+    drift = {"evaluations_whose_query_log_was_compared_with_the_protocol_model": stats.get("qchecked", 0),
+             "MODEL-DRIFT": stats.get("drift", 0), "first_drifting_case": stats.get("driftcase") or None,
+             "meaning": "the queries the real evaluator sent for an evaluation are exactly those IrrdProto!QueriesOfA predicts from the "
+                        "expression, the database and the answers (order included); a difference is reported here and is not an alarm"}
+    if drift["MODEL-DRIFT"]:
+        log(f"MODEL-DRIFT: {drift['MODEL-DRIFT']} evaluations sent other queries than Irrd.tla predicts (first: {drift['first_drifting_case']})")
+    cov = {"protocol_design_check": design, "protocol_conformance": drift, "agent_policy_sequences": agent, "states": stats["lines"] + 1 + design["states"], "transitions": stats["lines"], "traces_validated_against_impl": len(groups), "long_failure_streak_histories": len(groups) - nhist,
            "evaluations": stats["lines"], "distinct_nontrivial": stats.get("later", 0),
            "samples": [{"history": [h["expr_str"] + " errs=" + json.dumps({k: v for k, v in h["errs"].items() if v and k != "kind"}) for h in groups[0]["history"]]}],
            "histories": nhist, "evaluations_per_history": hlen, "evaluations_with_failed_outcome": stats.get("failed"),
